@@ -1,6 +1,196 @@
-(* C02 — theorems being added *)
+(* C02 -- every block the builder produces verifies identically.
+
+   Property text (properties.jsonl): "A block built on a parent is accepted by block verification on that same
+   parent, and verification reproduces exactly the builder's post-state root, per-transaction results, unit
+   prices and units consumed.  A block is never built whose re-verification fails or diverges, whatever the
+   mempool contents."
+
+   Models: Model/Builder.v [build_block] (chain/builder.go BuildBlock: repeat / state-key / PreExecute skips,
+   execution on the running diff, Consume AFTER execution with skip or errBlockFull, Execute errors aborting the
+   build, both refusals, the metadata the builder writes) and Model/Chain.v [execute_block] (chain/processor.go
+   Execute: Consume BEFORE execution for the whole block, any error rejects).  Both are made of the SAME
+   definitions state_keys / units / pre_execute / execute_tx / consume / compute_next, and both are tied to the
+   Go code on every run of bin/check C02 (Check/C02_check.v: the real Builder over a real mempool against
+   build_block, the real Processor on the built bytes against execute_block).
+
+   Quantification: all rules, parent states, parent headers, timestamps, and ALL candidate lists [cands]
+   (transactions with the validity window's repeat verdict, in the order in which the builder's tasks take
+   their decisions).  The wall clock, TargetBuildDuration, stream batching, the per-batch size cap, the
+   prefetch, the number of cores and tasks in flight when the builder stops only select which list is
+   processed (see the header of Model/Builder.v), so they are covered by "for all cands".
+
+   [out_ok] carries the results, the diff of data keys against the parent, the three metadata values and the
+   unit prices / units consumed.  Equal diffs and metadata on the same parent view give equal merkledb views,
+   hence equal state roots: merkledb is the oracle (trusted base), the root is compared in the Go check. *)
 From stdpp Require Import gmap.
-From HV Require Import Model.Keys Model.Tstate Model.Fees Model.Chain.
-Theorem C02_placeholder_too_late : forall r mk p b, b_too_late b = true -> execute_block r mk p b = inr (clsTooLate, 0%N).
-Proof. intros r mk p b H. unfold execute_block. rewrite H. reflexivity. Qed.
-Print Assumptions C02_placeholder_too_late.
+From Coq Require Import NArith ZArith.
+From HV Require Import Lib.Bytes Lib.U64 Model.Keys Model.Tstate Model.Fees Model.TxStatic Model.Chain Model.Builder.
+From HV Require Import Proofs.Fees_proofs Proofs.Builder_proofs.
+Local Open Scope N_scope.
+
+(* Hypotheses of the first theorem, all about the PARENT the block is built on and the mempool:
+   - the height in the parent's header is the height stored in the parent state;
+   - the timestamp stored in the parent state is not later than the header's (equal for every block built or
+     verified by this code; 0 <= header for the genesis block, DESIGN.md F-17);
+   - ts_guard: the block timestamp differs (as uint64) from the parent header's, or state and header
+     timestamps agree.  Implied by MinBlockGap > 0 (C02_ts_guard_from_positive_gap) and by a non-genesis
+     parent; without it the statement is false (C02_ts_guard_needed_refuted below);
+   - mempool admission verified the signatures (chain/pre_executor.go: PreExecute calls tx.VerifyAuth;
+     BuildBlock itself never does). *)
+Theorem C02_built_block_verifies :
+  forall (r : rules) (mk : meta_keys) (p : parent_state) (hdr_h : N) (hdr_ts now : Z) (cands : list cand)
+         (b : block) (o : out_ok) (vs : list verdict),
+    build_block r p hdr_h hdr_ts now cands = BBuilt b o vs ->
+    p_height p = Some hdr_h ->
+    (Z.of_N (p_ts p) <= hdr_ts)%Z ->
+    Forall (fun c => t_auth_ok (c_tx c) = true) cands ->
+    ts_guard p hdr_ts now ->
+    execute_block r mk p b = inl o.
+Proof. intros r mk p hdr_h hdr_ts now cands b o vs Hb Hh Hts Ha Hg. eapply built_block_verifies; eassumption. Qed.
+Print Assumptions C02_built_block_verifies.
+
+(* the same without ts_guard: the verifier accepts and reproduces results, diff, height, fee manager, unit
+   prices and units consumed; only the timestamp word left in the state may differ *)
+Theorem C02_built_block_verifies_outputs :
+  forall (r : rules) (mk : meta_keys) (p : parent_state) (hdr_h : N) (hdr_ts now : Z) (cands : list cand)
+         (b : block) (o : out_ok) (vs : list verdict),
+    build_block r p hdr_h hdr_ts now cands = BBuilt b o vs ->
+    p_height p = Some hdr_h ->
+    (Z.of_N (p_ts p) <= hdr_ts)%Z ->
+    Forall (fun c => t_auth_ok (c_tx c) = true) cands ->
+    exists o', execute_block r mk p b = inl o' /\
+      o_results o' = o_results o /\ o_diff o' = o_diff o /\ o_height o' = o_height o /\ o_fee o' = o_fee o /\
+      o_prices o' = o_prices o /\ o_consumed o' = o_consumed o /\ o_ts o' = ts_word now.
+Proof.
+  intros r mk p hdr_h hdr_ts now cands b o vs Hb Hh Hts Ha.
+  eexists. split; [eapply built_block_verifies_upto_ts; eassumption|]. repeat split.
+Qed.
+Print Assumptions C02_built_block_verifies_outputs.
+
+(* No hypothesis on the parent header or on signatures: the verifier never rejects a built block in its
+   per-transaction stage -- state keys, units, the block unit limits (Consume), PreExecute, Execute --
+   i.e. never with "failed to execute txs" (ErrInvalidUnitsConsumed included). *)
+Theorem C02_never_builds_failing :
+  forall (r : rules) (mk : meta_keys) (p : parent_state) (hdr_h : N) (hdr_ts now : Z) (cands : list cand)
+         (b : block) (o : out_ok) (vs : list verdict) (e : N),
+    build_block r p hdr_h hdr_ts now cands = BBuilt b o vs ->
+    execute_block r mk p b <> inr (clsExecuteTxs, e).
+Proof. intros r mk p hdr_h hdr_ts now cands b o vs e Hb. eapply never_builds_failing; eassumption. Qed.
+Print Assumptions C02_never_builds_failing.
+
+(* The two orders of Consume agree: the builder consumes after executing, one transaction at a time and only
+   for the transactions it keeps; the verifier consumes for the whole block before executing anything.  From
+   any manager/diff, the verifier's synchronous pass over the INCLUDED transactions ends in the builder's
+   manager, and its tasks, run under any manager with the same prices, reproduce the builder's diff/results. *)
+Theorem C02_loop_matches_verifier_passes :
+  forall (r : rules) (parent : gmap key val) (ts : Z) (cands : list cand) (fm : manager) (st : tstate) (lo : loop_out),
+    length (m_dims fm) = 5%nat ->
+    build_loop r parent ts fm st cands = Some lo ->
+    same_market fm (l_fm lo) /\
+    exists ptxs, prepare r fm (l_txs lo) = inl (ptxs, l_fm lo) /\
+      forall fmx, same_market fm fmx -> run_txs r fmx parent ts st ptxs = (l_st lo, l_results lo, []).
+Proof. intros r parent ts cands fm st lo. apply build_loop_verifies. Qed.
+Print Assumptions C02_loop_matches_verifier_passes.
+
+(* a candidate that is not included (repeat, bad keys, PreExecute failure, unit limit) leaves the running
+   block diff and the fee manager exactly as they were *)
+Theorem C02_skipped_candidate_has_no_effect :
+  forall (r : rules) (parent : gmap key val) (ts : Z) (fm : manager) (st : tstate) (c : cand)
+         (v : verdict) (st' : tstate) (fm' : manager) (inc : option (tx * result)),
+    length (m_dims fm) = 5%nat ->
+    build_step r parent ts fm st c = SNext v st' fm' inc ->
+    v <> VIncluded -> st' = st /\ fm' = fm /\ inc = None.
+Proof. exact skipped_no_effect. Qed.
+Print Assumptions C02_skipped_candidate_has_no_effect.
+
+Theorem C02_ts_guard_from_positive_gap :
+  forall (r : rules) (p : parent_state) (hdr_ts now : Z),
+    (0 < r_min_gap r)%Z -> (now <? hdr_ts + r_min_gap r)%Z = false ->
+    (- 2 ^ 63 <= hdr_ts < 2 ^ 63)%Z -> (- 2 ^ 63 <= now < 2 ^ 63)%Z ->
+    ts_guard p hdr_ts now.
+Proof. exact ts_guard_positive_gap. Qed.
+Print Assumptions C02_ts_guard_from_positive_gap.
+
+(* ------------------------------------------------------------------ non-vacuity *)
+Definition ex_rich : key := [115; 0; 1].
+Definition ex_poor : key := [116; 0; 1].
+Definition ex_k : key := [97; 0; 1].
+Definition ex_q : key := [98; 0; 1].
+Definition ex_rules : rules :=
+  mkRules 100 750 [1;1;1;1;1] [48;48;48;48;48] [20000000;40;1000;1000;1000]
+          [1800000;60;2000;2000;2000] 60000 16 1 5 2 20 5 10 3.
+Definition ex_fm : manager := mkFee 1058 [1; 2; 1; 3; 1] [] [0;0;0;0;0].
+Definition ex_tx (sp : key) (compute : N) (ops : list sop) : tx :=
+  mkTx 1067000 true 100000 sp true 1 (-1) (-1) 100 false [mkAction compute [(ex_k, 7); (ex_q, 7)] ops (-1) (-1)].
+Definition ex_parent : parent_state :=
+  mkParent {[ex_rich := be64 1000000; ex_poor := be64 10; ex_q := [9]]} (Some 47) 1059318 ex_fm.
+Definition ex_pool : list cand :=
+  [ mkCand (ex_tx ex_rich 3 [OPut ex_k [5]; OGet ex_q]) false;      (* valid: included *)
+    mkCand (ex_tx ex_rich 4 [OPut ex_k [6]]) true;                  (* the validity window reports a repeat *)
+    mkCand (ex_tx ex_poor 3 [OPut ex_k [7]]) false;                 (* underfunded sponsor: PreExecute fails *)
+    mkCand (ex_tx ex_rich 70 [OPut ex_k [8]]) false;                (* compute 72 > limit 60: skipped, packing goes on *)
+    mkCand (ex_tx ex_rich 40 [ODel ex_q; OGet ex_k; OFail]) false;  (* fits; its action fails: included, fee charged, reverted *)
+    mkCand (ex_tx ex_rich 30 [OPut ex_k [9]]) false;                (* 47 + 32 > 60 with 47 >= target 40: errBlockFull *)
+    mkCand (ex_tx ex_rich 1 [OPut ex_k [1]]) false ].               (* never attempted *)
+Definition ex_meta : meta_keys := mkMeta [0;0;1] [1;0;1] [2;0;8].
+Definition ex_built := build_block ex_rules ex_parent 47 1059318 1060318 ex_pool.
+
+Example C02_example_build :
+  match ex_built with
+  | BBuilt b o vs =>
+      vs = [VIncluded; VRepeat; VPre subInsufficient; VUnits 1; VIncluded; VStop 1]
+      /\ length (b_txs b) = 2%nat /\ map res_success (o_results o) = [true; false] /\ map res_fee (o_results o) = [315; 352]
+      /\ map_to_list (o_diff o) = [(ex_k, Some [5]); (ex_rich, Some (be64 (1000000 - 315 - 352)))]
+      /\ o_consumed o = [200; 47; 42; 150; 78] /\ o_prices o = [1; 1; 1; 2; 1] /\ o_height o = 48 /\ o_ts o = 1060318
+      (* the hypotheses of C02_built_block_verifies hold ... *)
+      /\ p_height ex_parent = Some 47 /\ (Z.of_N (p_ts ex_parent) <= 1059318)%Z
+      /\ forallb (fun c => t_auth_ok (c_tx c)) ex_pool = true
+      /\ ts_word 1060318 <> ts_word 1059318
+      (* ... and so does its conclusion, here by evaluation *)
+      /\ execute_block ex_rules ex_meta ex_parent b = inl o
+  | _ => False
+  end.
+Proof. vm_compute. repeat split; try reflexivity; discriminate. Qed.
+
+(* the other outcomes of the builder exist too *)
+Example C02_example_refusals :
+  build_block ex_rules ex_parent 47 1059318 1059400 ex_pool = BRefusedEarly
+  /\ build_block ex_rules ex_parent 47 1059318 1059500 [mkCand (ex_tx ex_poor 3 []) false] = BRefusedEmpty
+  /\ (* fee 0 and no balance entry: CanDeduct passes, Deduct fails -> the build is aborted *)
+     build_block (mkRules 100 750 [0;0;0;0;0] [48;48;48;48;48] [20000000;40;1000;1000;1000] [1800000;60;2000;2000;2000]
+                          60000 16 1 5 2 20 5 10 3)
+                 (mkParent ∅ (Some 47) 1059318 (mkFee 1058 [0;0;0;0;0] [] [0;0;0;0;0])) 47 1059318 1060318
+                 [mkCand (ex_tx ex_poor 3 []) false] = BError.
+Proof. vm_compute. repeat split; reflexivity. Qed.
+
+(* ts_guard is needed: a genesis-like parent (state timestamp 0, header timestamp 1059318), MinBlockGap = 0 and
+   a block in the very millisecond of the parent header: the builder's metadata view sees "timestamp unchanged"
+   and leaves the state timestamp 0 in place, the verifier writes the block's.  All other outputs agree. *)
+Definition gx_rules : rules :=
+  mkRules 0 0 [1;1;1;1;1] [48;48;48;48;48] [20000000;40;1000;1000;1000] [1800000;60;2000;2000;2000] 60000 16 1 5 2 20 5 10 3.
+Definition gx_parent : parent_state := mkParent (p_data ex_parent) (Some 0) 0 ex_fm.
+Definition gx_cands : list cand := [mkCand (ex_tx ex_rich 3 [OPut ex_k [5]]) false].
+Definition gx_dummy_out : out_ok := mkOut [] ∅ 0 0 zero_mgr [] [].
+Definition gx_built : block * out_ok * list verdict :=
+  match build_block gx_rules gx_parent 0 1059318 1059318 gx_cands with
+  | BBuilt b o vs => (b, o, vs)
+  | _ => (mkBlock 0 0 true false false None [], gx_dummy_out, [])
+  end.
+Definition gx_verified : out_ok :=
+  match execute_block gx_rules ex_meta gx_parent gx_built.1.1 with inl o' => o' | inr _ => gx_dummy_out end.
+
+Theorem C02_ts_guard_needed_refuted :
+  exists (r : rules) (mk : meta_keys) (p : parent_state) (hdr_h : N) (hdr_ts now : Z) (cands : list cand) b o vs o',
+    build_block r p hdr_h hdr_ts now cands = BBuilt b o vs /\
+    p_height p = Some hdr_h /\ (Z.of_N (p_ts p) <= hdr_ts)%Z /\ Forall (fun c => t_auth_ok (c_tx c) = true) cands /\
+    execute_block r mk p b = inl o' /\ o_ts o' <> o_ts o /\
+    (o_results o', o_diff o', o_height o', o_fee o', o_prices o', o_consumed o')
+    = (o_results o, o_diff o, o_height o, o_fee o, o_prices o, o_consumed o).
+Proof.
+  exists gx_rules, ex_meta, gx_parent, 0, 1059318%Z, 1059318%Z, gx_cands,
+         gx_built.1.1, gx_built.1.2, gx_built.2, gx_verified.
+  split; [vm_compute; reflexivity|]. split; [reflexivity|]. split; [vm_compute; discriminate|].
+  split; [repeat constructor|]. split; [vm_compute; reflexivity|]. split; [vm_compute; discriminate|].
+  vm_compute. reflexivity.
+Qed.
+Print Assumptions C02_ts_guard_needed_refuted.
